@@ -1,7 +1,7 @@
 """C18 - whatever bytes a numeric field holds, the result fits its PICTURE or is an error."""
 from codec_common import *
 
-GEN = ["EstructParams", "Cp037"]
+GEN = ["EstructParams", "Cp037", "TextCodec"]
 RULE = ("every byte string of the field's width for packed and zoned items: ALL 256 one-byte and ALL 65536 two-byte buffers for every picture family "
         "of that width (quick: full for odd-digit packed and unsigned zoned, every 4th buffer for the two known-bad families; thorough: full, plus 400k "
         "three-byte buffers), nibble-boundary and random patterns up to 18 (zoned) / 28 (packed) digits, valid encodings with one corrupted nibble. "
